@@ -19,8 +19,11 @@ def parseFmtInput (inp out : Json) : Option FmtInput := do
   let nd := match (jget e "namedDirs").getObj? with
     | .ok o => (o.toList.filter (fun (_, v) => jstr v != "")).map (fun (k, _) => k.toList)
     | .error _ => []
+  -- `env.getBool`: a switch that is set is on for "true" and "1" only
+  let bv := jS e "boolVal"
+  let sw (k : String) : Bool := if bv = [] then jbool e k else bv == "true".toList || bv == "1".toList
   let env : Env :=
-    { colorDisabled := jbool e "nocolor", unfiltered := jbool e "unfiltered", nospaceEnv := jS e "nospace",
+    { colorDisabled := sw "nocolor", unfiltered := sw "unfiltered", nospaceEnv := jS e "nospace",
       ci := jbool e "ci", wordbreaks := joptS e "wordbreaks", bashPrefix := jS e "bashPrefix",
       bashCompType := jS e "bashCompType", zshRaw := jS out "zshRawToken", namedDirs := nd,
       errStyle := jS out "errStyle", dfltStyle := jS out "dfltStyle" }
